@@ -11,6 +11,7 @@ CHECKS = {
  "C02": ("bounded symbolic execution of pubsub.Subscribe/Unsubscribe/Publish, broker.Conn.CanSubscribe/CanUnsubscribe/Send, message.Counters and the trie on two real connections: ssid-level histories with arbitrary 32-bit words (so filters that collide in the per-connection XOR-fold bookkeeping are found by the solver), delivery compared with the set of acknowledged (connection, filter) pairs", "3 C02"),
  "C03": ("bounded symbolic execution of broker.Service.Authorize with the real keygen service, SingleContractProvider/contract.Validate, security.Key (SetTarget, ValidateChannel, IsExpired, HasPermission), ParseChannel and murmur hash.Of: all key fields, the license, the clock, the permission needed and the letters of target and requested channel symbolic, compared in both directions with the predicate transcribed from the statement", "3 C03"),
  "C04": ("bounded symbolic execution of crdt.Volatile/Durable Merge/Add/Del/Has/Get: three update sets with symbolic int64 add/remove times delivered to four replicas in every order, with duplicates, pre-merged groups and relayed deltas; local operations under an arbitrary clock", "3 C04"),
+ "C05": ("bounded symbolic execution of cluster.Swarm.merge/Notify/findPeer/onPeerOnline/onPeerOffline, Peer.onSubscribe/onUnsubscribe, message.Counters, pubsub.Subscribe/Unsubscribe, the trie and event.State: (a) one broker fed consecutive payloads with arbitrary add/remove times about two connections of a peer - routing must follow the replicated state after every payload; (b) two brokers with client activity, in-order / lost broadcasts, peer garbage collection and periodic full-state exchange, routing checked at quiescence", "3 C05"),
  "C06": ("bounded symbolic execution of storage.SSD.lookup (InMemory embeds it), message.NewPrefix / ID.HasPrefix / ID.Match / ID.Time and Frame.Limit/Sort over a symbolic key-ordered store: stored contract, channel words, times and expiry symbolic (so 32-bit key-prefix collisions between contracts are found by the solver), query filter, window, limit and continuation id symbolic; natively replayed against the real in-memory badger", "3 C06"),
  "C07": ("bounded symbolic execution of pubsub.OnPublish, OnLastWill and OnSubscribe with the real Authorize/ParseChannel/Channel.TTL/Last/Window (strconv from SSA): permission mask, retain/will flags and option values symbolic (decimal digits, plus the values at the 2^31/2^32 boundaries), storage as a recording stub", "3 C07"),
  "C08": ("bounded symbolic execution of broker.Conn.Close (with its recover), Process/onReceive/onConnect on a scripted socket, pubsub.Unsubscribe/OnLastWill, Counters.All and the trie: histories of subscriptions with arbitrary ssid words plus a link auto-subscription, a watched last will with a symbolic permission mask, and a real encoded session stream cut at every byte offset, ended by DISCONNECT or corrupted in one byte", "3 C08"),
